@@ -53,9 +53,12 @@ type Result struct {
 	Exhaustive  bool           `json:"exhaustive"`
 	Caps        []string       `json:"caps,omitempty"`
 	Extra       map[string]any `json:"extra,omitempty"`
-	Replayed    int64          `json:"replayed_twice"`
-	WallS       float64        `json:"wall_s"`
-	Finished    bool           `json:"finished"`
+	// Sums are counters added up across processes (Extra values are not: for those
+	// vcheck keeps the maximum of numbers and the first of everything else).
+	Sums     map[string]int64 `json:"sums,omitempty"`
+	Replayed int64            `json:"replayed_twice"`
+	WallS    float64          `json:"wall_s"`
+	Finished bool             `json:"finished"`
 }
 
 // TB is the part of testing.TB the reporter needs.
@@ -99,6 +102,7 @@ func Start(t TB, id, unit string) *R {
 	}
 	r.res.Exhaustive = true
 	r.res.Extra = map[string]any{}
+	r.res.Sums = map[string]int64{}
 	r.out = os.Getenv("VERIF_OUT")
 	d := 0
 	if s := os.Getenv("VERIF_DEADLINE_S"); s != "" {
@@ -315,11 +319,10 @@ func (r *R) Set(key string, v any) {
 	r.mu.Unlock()
 }
 
-// Add adds n to a numeric extra counter.
+// Add adds n to a counter that is summed across processes.
 func (r *R) Add(key string, n int64) {
 	r.mu.Lock()
-	cur, _ := r.res.Extra[key].(int64)
-	r.res.Extra[key] = cur + n
+	r.res.Sums[key] += n
 	r.mu.Unlock()
 }
 
